@@ -362,24 +362,30 @@ class IrToPythonCompiler:
         for ins in block:
             self.generate_instruction(ins, block)
 
-        if not self._shape_style:
-            self.fill_phis(block)
+    def fill_phis(self, block, target):
+        """Assign the phis of target the values incoming from block.
 
-    def fill_phis(self, block):
-        # Generate eventual phi fill code:
-        phis = [p for s in block.successors for p in s.phis]
+        This is done per control flow edge: the phis of a successor which is
+        not jumped to must keep their value, it may still be in use (for
+        example a loop carried value which is used after the loop).
+        All phis of the target are assigned at once (parallel copy).
+        """
+        phis = target.phis
         if phis:
             phi_names = ", ".join(p.name for p in phis)
-            value_names = ", ".join(p.inputs[block].name for p in phis)
+            value_names = ", ".join(
+                self.fetch_value(p.inputs[block]) for p in phis
+            )
             self.emit(f"{phi_names} = {value_names}")
 
     def reset_stack(self):
         self.emit(f"rt.free({self.stack_size})")
         self.stack_size = 0
 
-    def emit_jump(self, target: ir.Block):
-        """Perform a jump in block mode."""
+    def emit_jump(self, block: ir.Block, target: ir.Block):
+        """Perform a jump from block to target in block mode."""
         assert isinstance(target, ir.Block)
+        self.fill_phis(block, target)
         self.emit("_irpy_prev_block = _irpy_current_block")
         self.emit(f'_irpy_current_block = "{target.name}"')
 
@@ -456,10 +462,10 @@ class IrToPythonCompiler:
         else:
             self.emit(f"if {a} {ins.cond} {b}:")
             with self.indented():
-                self.emit_jump(ins.lab_yes)
+                self.emit_jump(ins.block, ins.lab_yes)
             self.emit("else:")
             with self.indented():
-                self.emit_jump(ins.lab_no)
+                self.emit_jump(ins.block, ins.lab_no)
 
     def gen_jump(self, ins):
         if self._shape_style:
@@ -467,7 +473,7 @@ class IrToPythonCompiler:
             # self.fill_phis(block)
             self.emit("pass")
         else:
-            self.emit_jump(ins.target)
+            self.emit_jump(ins.block, ins.target)
 
     def gen_cast(self, ins):
         if ins.ty.is_integer:
